@@ -67,7 +67,7 @@ function genSpec(seed, idx) {
     structs.push(st);
   }
   // out-structs: by-value returns whose fields are borrowed opaque references
-  const nOut = rng.pick([0, 1, 1]);
+  const nOut = rng.pick([0, 1, 1, 1]);
   for (let i = 0; i < nOut; i++) {
     const nl = 1 + rng.below(2);
     const lts = LTS.slice(0, nl);
@@ -114,7 +114,7 @@ function genSpec(seed, idx) {
         params.push({ name: "p" + p, kind: "struct", ty: s.name, args: s.lts.map(() => same ?? anyLt()) });
       }
     }
-    let rkind = rng.pick(["box", "box", "box", "ref", "optbox", "optref", "resbox", "struct", "resstruct"]);
+    let rkind = rng.pick(["box", "box", "ref", "optbox", "optref", "resbox", "struct", "struct", "resstruct"]);
     if ((rkind === "struct" || rkind === "resstruct") && !outs.length) rkind = "box";
     const ro = rkind === "struct" || rkind === "resstruct" ? rng.pick(outs) : rng.pick(opaques);
     const ret = { kind: rkind, ty: ro.name, lt: rkind === "ref" || rkind === "optref" ? anyLt() : null, args: ro.lts.map(() => anyLt()) }; // ('static is not generated: the JS backend panics on it, which is C15's subject)
